@@ -319,6 +319,34 @@ def goal_texts(p, rng):
     return ms, [gen.goal_text(m) for m in ms]
 
 
+def abstraction_fits(values_sym, exact_vals):
+    """is there an assignment of constants in [0, 1] to the abstraction probabilities under which the symbolic values
+    equal the exact ones at n = 0..N?  True / False / None (undecided: sympy could not solve)"""
+    import sympy as sp
+    eqs = []
+    syms = set()
+    for s, e in zip(values_sym, exact_vals):
+        d = sp.sympify(s) - sp.Rational(e.numerator, e.denominator)
+        d = sp.expand(d)
+        if d == 0:
+            continue
+        if not d.free_symbols:
+            return False
+        syms |= d.free_symbols
+        eqs.append(d)
+    if not eqs:
+        return True
+    try:
+        sols = sp.solve(eqs, sorted(syms, key=str), dict=True)
+    except Exception:
+        return None
+    for sol in sols:
+        vals = [sol.get(x) for x in syms]
+        if all(val is None or (val.is_real and 0 <= val <= 1) or val.free_symbols for val in vals):
+            return True
+    return False
+
+
 def run(ctx):
     ok, log = lib.coq_check_props(ctx)
     if not ok:
@@ -329,7 +357,7 @@ def run(ctx):
     timing = {"coq_props": round(ctx.elapsed(), 1)}
     t_ = time.time()
     n_in = ctx.pick(70, 560)
-    n_out = ctx.pick(14, 120)
+    n_out = ctx.pick(24, 120)
     N = 5
     cases = [(p, o, s, "in") for p, o, s in classgen.witnesses()]
     rd = lib.replay_data(ctx)
@@ -515,6 +543,21 @@ def run(ctx):
                 except Exception:
                     pass
             # (b) a result must be right
+            if ex is not None and "values_sym" in gr and "values" not in gr:
+                # result symbolic in the probabilities of abstracted conditions: SOME constant probabilities must fit
+                fit = abstraction_fits(gr["values_sym"], [ex[n][gi] for n in range(N + 1)])
+                ctx.coverage["obligations"] += 1
+                if fit is False:
+                    ctx.violation(f"wrong-result:abstraction-no-constant-probability:{text}:{gname}",
+                                  dict(replay, goal=gname, closed_form=gr["sol"], abstracted=r["abstracted"], values_in_prob=gr["values_sym"][:N + 1],
+                                       reference_values=[str(ex[n][gi]) for n in range(N + 1)], flat_program=r.get("flat_text")),
+                                  f"E({gname}): Polar returned {gr['sol']} with {r['abstracted']}; no constant value of the abstraction "
+                                  f"probabilities reproduces the exact expectations {[str(ex[n][gi]) for n in range(N + 1)]} "
+                                  f"({'in-class' if inclass else 'out-of-class'} program, shape {shape})\n{text}")
+                else:
+                    ctx.coverage["discharged"] += 1
+                    st["abstraction_fits"] = st.get("abstraction_fits", 0) + 1
+                continue
             if ex is None or "values" not in gr:
                 continue
             badn = None
